@@ -129,6 +129,8 @@ func main() {
 		replayMain(os.Args[2:])
 	case "check":
 		checkMain(os.Args[2:])
+	case "selftest":
+		selftestMain(os.Args[2:])
 	case "fidelity":
 		fidelityMain(os.Args[2:])
 	default:
